@@ -40,6 +40,25 @@ static struct model {
     cx fz[MAXF][MAXD];
 } M;
 
+#ifdef ALLOCFAIL
+/*
+ * C12: exactly one allocation made by the library fails; WHICH one is symbolic (the solver quantifies over every allocation
+ * index of the history in one query).  The faulted call must fail with -1 / ENOMEM (or still succeed), the object must stay
+ * usable, and repeating the call without the fault must give what the fault-free model predicts.
+ */
+static long vf_fail_at = -1;
+static long vf_alloc_count;
+static int vf_fault_fired;
+int vf_alloc_hook(void)
+{
+    if (vf_alloc_count++ == vf_fail_at) { vf_fault_fired = 1; errno = ENOMEM; return 1; }
+    return 0;
+}
+#define CHK(c, msg) VF_ASSERT((attempt == 0 && vf_fault_fired && !fired_before) || (c), msg)
+#else
+#define CHK(c, msg) VF_ASSERT(c, msg)
+#endif
+
 static int max(int a, int b) { return a > b ? a : b; }
 static int min(int a, int b) { return a < b ? a : b; }
 
@@ -114,6 +133,9 @@ void harness(void)
 {
     vnadata_t *vdp = vnadata_alloc(vf_error_fn, NULL);
     VF_ASSUME(vdp != NULL);
+#ifdef ALLOCFAIL
+    /* FAILSTEP / FAILAT are enumerated by the runner: a symbolic fault index makes every later allocation symbolic and CBMC runs out of memory */
+#endif
     M.type = VPT_UNDEF;
     for (int k = 0; k < MAXF; ++k) { m_reset_fz(k); }
     for (int p = 0; p < MAXD; ++p) { M.z0[p].re = 50; M.z0[p].im = 0; }
@@ -139,12 +161,28 @@ void harness(void)
 	    VF_RANGE(f, lb + 4, -1, MAXF + 1);
 	}
 	VF_RANGE(port, lb + 5, -1, MAXD + 1);
+#ifdef ALLOCFAIL
+	/* in the fault-injection runs the index arguments are the concrete valid ones: whether a call allocates must not depend on a symbolic
+	 * accept/refuse decision, otherwise the heap shape after the fault is symbolic and CBMC runs out of memory */
+	if (op != 1 && op != 2) { r = 0; c = 0; f = 0; port = 0; type = M.type; }
+#endif
 	double v[DSLOTS];
 	for (int i = 0; i < DSLOTS; ++i) v[i] = in_d(db + i);
 	double complex val = mkc(v[0], v[1]);
 	double complex vec[MAXC];
 	for (int i = 0; i < MAXC; ++i) vec[i] = mkc(v[2 * i], v[2 * i + 1]);
 	int before = vf_err_count, rc = 0, exp = 0, ports = max(M.rows, M.cols);
+	int fault_now = 0;
+#ifdef ALLOCFAIL
+	/* the allocation counter restarts at every step: along one path through ONE library call the count is concrete, whereas across
+	 * steps it would depend on symbolic accept/refuse outcomes (and a symbolic allocation outcome does not finish in CBMC) */
+	vf_alloc_count = 0;
+	vf_fail_at = (step == FAILSTEP && !vf_fault_fired) ? FAILAT : -1;
+	struct model M0 = M;
+	for (int attempt = 0; attempt < 2; ++attempt) {
+	int fired_before = vf_fault_fired;
+	if (attempt == 1) { M = M0; before = vf_err_count; ports = max(M.rows, M.cols); fault_now = 0; vf_fail_at = -1; }
+#endif
 	switch (op) {
 	case 0:
 	    break;
@@ -158,54 +196,54 @@ void harness(void)
 		m_to_z0();
 		for (int p = 0; p < MAXD; ++p) { M.z0[p].re = 50; M.z0[p].im = 0; }
 		exp = m_resize(type, r, c, f);
-		VF_ASSERT(rc == exp, "C15.a: vnadata_init accepts exactly the documented type/dimension combinations");
+		CHK(rc == exp, "C15.a: vnadata_init accepts exactly the documented type/dimension combinations");
 	    } else {
 		rc = vnadata_resize(vdp, (vnadata_parameter_type_t)type, r, c, f);
 		exp = m_resize(type, r, c, f);
-		VF_ASSERT(rc == exp, "C15.a: vnadata_resize accepts exactly the documented type/dimension combinations");
+		CHK(rc == exp, "C15.a: vnadata_resize accepts exactly the documented type/dimension combinations");
 	    }
 	    break;
 	case 3:
 	    rc = vnadata_set_type(vdp, (vnadata_parameter_type_t)type);
 	    exp = type_ok(type, M.rows, M.cols) ? 0 : -1;
 	    if (exp == 0) M.type = type;
-	    VF_ASSERT(rc == exp, "C15.a: vnadata_set_type enforces the type/dimension rule");
+	    CHK(rc == exp, "C15.a: vnadata_set_type enforces the type/dimension rule");
 	    break;
 	case 4:
 	    rc = vnadata_set_cell(vdp, f, r, c, val);
 	    exp = (f >= 0 && f < M.F && r >= 0 && r < M.rows && c >= 0 && c < M.cols) ? 0 : -1;
 	    if (exp == 0) { M.cell[f][r * M.cols + c].re = v[0]; M.cell[f][r * M.cols + c].im = v[1]; }
-	    VF_ASSERT(rc == exp, "C15.a: vnadata_set_cell refuses every index outside [0,n)");
+	    CHK(rc == exp, "C15.a: vnadata_set_cell refuses every index outside [0,n)");
 	    break;
 	case 5:
 	    rc = vnadata_set_frequency(vdp, f, v[0]);
 	    exp = (f >= 0 && f < M.F) ? 0 : -1;
 	    if (exp == 0) M.freq[f] = v[0];
-	    VF_ASSERT(rc == exp, "C15.a: vnadata_set_frequency refuses every index outside [0,n)");
+	    CHK(rc == exp, "C15.a: vnadata_set_frequency refuses every index outside [0,n)");
 	    break;
 	case 6:
 	    rc = vnadata_set_z0(vdp, port, val);
 	    exp = (port >= 0 && port < ports) ? 0 : -1;
 	    if (exp == 0) { m_to_z0(); M.z0[port].re = v[0]; M.z0[port].im = v[1]; }
-	    VF_ASSERT(rc == exp, "C15.a: vnadata_set_z0 refuses every port index outside [0,ports) including ports");
+	    CHK(rc == exp, "C15.a: vnadata_set_z0 refuses every port index outside [0,ports) including ports");
 	    break;
 	case 7:
 	    rc = vnadata_set_all_z0(vdp, val);
 	    m_to_z0();
 	    for (int p = 0; p < ports; ++p) { M.z0[p].re = v[0]; M.z0[p].im = v[1]; }
-	    VF_ASSERT(rc == 0, "C15.a: vnadata_set_all_z0 succeeds");
+	    CHK(rc == 0, "C15.a: vnadata_set_all_z0 succeeds");
 	    break;
 	case 8:
 	    rc = vnadata_set_fz0(vdp, f, port, val);
 	    exp = (f >= 0 && f < M.F && port >= 0 && port < ports) ? 0 : -1;
 	    if (exp == 0) { m_to_fz0(); M.fz[f][port].re = v[0]; M.fz[f][port].im = v[1]; }
-	    VF_ASSERT(rc == exp, "C15.a: vnadata_set_fz0 refuses every index outside [0,n) including n");
+	    CHK(rc == exp, "C15.a: vnadata_set_fz0 refuses every index outside [0,n) including n");
 	    break;
 	case 9:
 	    rc = vnadata_set_z0_vector(vdp, vec);
 	    m_to_z0();
 	    for (int p = 0; p < ports; ++p) { M.z0[p].re = v[2 * p]; M.z0[p].im = v[2 * p + 1]; }
-	    VF_ASSERT(rc == 0, "C15.a: vnadata_set_z0_vector succeeds");
+	    CHK(rc == 0, "C15.a: vnadata_set_z0_vector succeeds");
 	    break;
 	case 10:
 	    rc = vnadata_set_fz0_vector(vdp, f, vec);
@@ -214,23 +252,39 @@ void harness(void)
 		m_to_fz0();
 		for (int p = 0; p < ports; ++p) { M.fz[f][p].re = v[2 * p]; M.fz[f][p].im = v[2 * p + 1]; }
 	    }
-	    VF_ASSERT(rc == exp, "C15.a: vnadata_set_fz0_vector refuses every frequency index outside [0,n)");
+	    CHK(rc == exp, "C15.a: vnadata_set_fz0_vector refuses every frequency index outside [0,n)");
 	    break;
 	case 11:
 	    rc = vnadata_set_matrix(vdp, f, vec);
 	    exp = (f >= 0 && f < M.F) ? 0 : -1;
 	    if (exp == 0)
 		for (int i = 0; i < M.rows * M.cols; ++i) { M.cell[f][i].re = v[2 * i]; M.cell[f][i].im = v[2 * i + 1]; }
-	    VF_ASSERT(rc == exp, "C15.a: vnadata_set_matrix refuses every frequency index outside [0,n)");
+	    CHK(rc == exp, "C15.a: vnadata_set_matrix refuses every frequency index outside [0,n)");
 	    break;
 	case 12:
 	    rc = vnadata_set_from_vector(vdp, r, c, vec);
 	    exp = (r >= 0 && r < M.rows && c >= 0 && c < M.cols) ? 0 : -1;
 	    if (exp == 0)
 		for (int k = 0; k < M.F; ++k) { M.cell[k][r * M.cols + c].re = v[2 * k]; M.cell[k][r * M.cols + c].im = v[2 * k + 1]; }
-	    VF_ASSERT(rc == exp, "C15.a: vnadata_set_from_vector refuses every row/column outside [0,n)");
+	    CHK(rc == exp, "C15.a: vnadata_set_from_vector refuses every row/column outside [0,n)");
 	    break;
 	}
+#ifdef ALLOCFAIL
+	if (attempt == 0 && vf_fault_fired && !fired_before) {
+	    /* the fault fired inside this call */
+	    if (rc == -1) {
+		VF_ASSERT(errno == ENOMEM, "C12: a call that fails because an allocation failed sets errno to ENOMEM");
+		VF_ASSERT(vf_err_count >= before + 1, "C12: the allocation failure is reported through the error function");
+		VF_REACH("faulted call failed cleanly");
+	    }
+	    /* the object must still be readable, then the same call is repeated without the fault */
+	    (void)vnadata_get_rows(vdp); (void)vnadata_get_columns(vdp); (void)vnadata_get_frequencies(vdp);
+	    if (rc == -1) continue;
+	}
+	break;
+	}
+	fault_now = 0;
+#endif
 	if (rc == -1) {
 	    VF_ASSERT(vf_err_count == before + 1, "C11.b: a refused vnadata call invokes the error callback exactly once");
 	    VF_ASSERT(errno == EINVAL, "C11.b: a vnadata call refused for its arguments sets errno to EINVAL");
